@@ -24,7 +24,7 @@ use bytes::BufMut;
 use super::*;
 use crate::recv::RecvBuf;
 
-const W: u64 = 6;
+const W: u64 = 4;
 static SEQ: [u8; 8] = [0, 1, 2, 3, 4, 5, 6, 7];
 const LIM: u64 = (1 << 62) - 1;
 
@@ -38,23 +38,64 @@ pub(super) fn stub_slice_index_fail(_start: usize, _end: usize, _len: usize) -> 
     panic!("slice index out of range")
 }
 
-/// The reader's buffer: a recording BufMut with fixed capacity.
+/// The reader's buffer: a recording BufMut with `cap` bytes of space. It does not copy bytes: the
+/// stream content is `Bytes::from_static(&SEQ)` sliced (never copied) by both buffers, so the
+/// byte at stream offset y lives at address SEQ + y, and a `put` of a Bytes is recorded as
+/// (stream offset of its first byte, recognised by ADDRESS; length). No byte arrays at symbolic
+/// offsets, no memcpy with symbolic length (NOTES-tracing.md §"BufMut targets").
 struct Sink {
-    buf: [u8; 8],
-    pos: usize,
     cap: usize,
+    pos: usize,
+    /// every put so far started at the address of the next expected stream byte
+    in_order: bool,
+    /// stream offset the next put has to start at
+    next: u64,
+    puts: u32,
+    dummy: [u8; 1],
+}
+
+impl Sink {
+    fn new(cap: usize, first: u64) -> Self {
+        Sink { cap, pos: 0, in_order: true, next: first, puts: 0, dummy: [0] }
+    }
 }
 
 unsafe impl BufMut for Sink {
     fn remaining_mut(&self) -> usize {
         self.cap - self.pos
     }
-    unsafe fn advance_mut(&mut self, cnt: usize) {
-        self.pos += cnt;
+    unsafe fn advance_mut(&mut self, _cnt: usize) {
+        panic!("raw chunk access is not used by RecvBuf::try_read");
     }
     fn chunk_mut(&mut self) -> &mut bytes::buf::UninitSlice {
-        bytes::buf::UninitSlice::new(&mut self.buf[self.pos..self.cap])
+        panic!("raw chunk access is not used by RecvBuf::try_read");
+        #[allow(unreachable_code)]
+        bytes::buf::UninitSlice::new(&mut self.dummy[..])
     }
+    /// Same contract as the provided method (panics if the source does not fit); records instead of copying.
+    fn put<T: bytes::Buf>(&mut self, src: T)
+    where
+        Self: Sized,
+    {
+        let n = src.remaining();
+        assert!(n <= self.cap - self.pos, "advance out of bounds");
+        if n > 0 {
+            let s = src.chunk();
+            assert!(s.len() == n, "a Bytes is one contiguous chunk");
+            if !core::ptr::eq(s.as_ptr(), SEQ.as_ptr().wrapping_add(self.next as usize)) {
+                self.in_order = false;
+            }
+            self.next += n as u64;
+            self.pos += n;
+            self.puts += 1;
+        }
+        core::mem::forget(src);
+    }
+}
+
+/// Is `d` exactly the bytes SEQ[from..from+d.len()) (by address: content is never copied)?
+fn is_content(d: &Bytes, from: u64) -> bool {
+    core::ptr::eq(d.as_ptr(), SEQ.as_ptr().wrapping_add(from as usize))
 }
 
 /// Ghost colour of the probe byte (documented semantics of the send buffer).
@@ -110,9 +151,9 @@ fn real_color(b: &SendBuf, x: u64) -> G {
 /// Precondition (asserted): idx_start <= len; the boundary before idx_start is Recved and starts
 /// below `end`; no Pending byte below `end`.
 pub(super) fn ref_lost_from(m: &mut BufMap, idx_start: usize, end: u64) {
-    const MAXOUT: usize = 7;
+    const MAXN: usize = verif_model::CAP; // (the container model cannot hold more boundaries)
     let n = m.0.len();
-    assert!(n < MAXOUT, "reference: shape within the reference's capacity");
+    assert!(n <= MAXN, "twin: shape within the twin's capacity");
     assert!(idx_start <= n, "may_lost_from: start index within the map");
     if idx_start > 0 {
         let p = m.0[idx_start - 1];
@@ -123,18 +164,13 @@ pub(super) fn ref_lost_from(m: &mut BufMap, idx_start: usize, end: u64) {
     const SCAN: u8 = 1; // boundaries below `end`: converted
     const EQRUN: u8 = 2; // a boundary == end was met: swallow the Lost boundaries that follow
     const DONE: u8 = 3; // copy the rest
-    let mut out = [0u64; MAXOUT];
+    let mut out = [0u64; MAXN + 1];
     let mut cnt: usize = 0;
     macro_rules! push {
         ($v:expr) => {{
             let v: State = $v;
-            let mut k = 0;
-            while k < MAXOUT {
-                if k == cnt {
-                    out[k] = v.0;
-                }
-                k += 1;
-            }
+            assert!(cnt <= MAXN);
+            out[cnt] = v.0;
             cnt += 1;
         }};
     }
@@ -142,50 +178,49 @@ pub(super) fn ref_lost_from(m: &mut BufMap, idx_start: usize, end: u64) {
     let mut kept_first = false; // the current level already has its (kept) first Lost boundary
     let mut pre_color = Color::Recved;
     let mut i = 0;
-    while i < MAXOUT - 1 {
-        if i >= n {
-            break;
-        }
-        let s = m.0[i];
-        if mode == BEFORE {
-            push!(s);
-            if i + 1 == idx_start {
-                mode = SCAN;
-            }
-        } else {
-            if mode == SCAN {
-                match s.offset().cmp(&end) {
-                    Ordering::Less => {
-                        pre_color = s.color();
-                        if s.color() == Color::Recved {
-                            push!(s); // acked hole: the next boundary starts a new level
-                            kept_first = false;
-                        } else if !kept_first {
-                            push!(State::encode(s.offset(), Color::Lost));
-                            kept_first = true;
+    while i < MAXN {
+        if i < n {
+            let s = m.0[i];
+            if mode == BEFORE {
+                push!(s);
+                if i + 1 == idx_start {
+                    mode = SCAN;
+                }
+            } else {
+                if mode == SCAN {
+                    match s.offset().cmp(&end) {
+                        Ordering::Less => {
+                            pre_color = s.color();
+                            if s.color() == Color::Recved {
+                                push!(s); // acked hole: the next boundary starts a new level
+                                kept_first = false;
+                            } else if !kept_first {
+                                push!(State::encode(s.offset(), Color::Lost));
+                                kept_first = true;
+                            }
+                        }
+                        Ordering::Equal => mode = EQRUN,
+                        Ordering::Greater => {
+                            if pre_color == Color::Flighting {
+                                push!(State::encode(end, Color::Flighting));
+                            }
+                            mode = DONE;
                         }
                     }
-                    Ordering::Equal => mode = EQRUN,
-                    Ordering::Greater => {
-                        if pre_color == Color::Flighting {
-                            push!(State::encode(end, Color::Flighting));
+                }
+                if mode == EQRUN {
+                    if s.color() == Color::Lost {
+                        if !kept_first {
+                            push!(s);
+                            kept_first = true;
                         }
+                    } else {
                         mode = DONE;
                     }
                 }
-            }
-            if mode == EQRUN {
-                if s.color() == Color::Lost {
-                    if !kept_first {
-                        push!(s);
-                        kept_first = true;
-                    }
-                } else {
-                    mode = DONE;
+                if mode == DONE {
+                    push!(s);
                 }
-            }
-            if mode == DONE {
-                push!(s);
             }
         }
         i += 1;
@@ -193,25 +228,17 @@ pub(super) fn ref_lost_from(m: &mut BufMap, idx_start: usize, end: u64) {
     if mode == SCAN && end < m.size() && pre_color == Color::Flighting {
         push!(State::encode(end, Color::Flighting));
     }
-    assert!(cnt <= n + 1 && cnt <= MAXOUT, "reference: at most one boundary added");
+    assert!(cnt <= n + 1, "twin: at most one boundary added");
     // write back
     let mut j = 0;
-    while j < MAXOUT - 1 {
+    while j < MAXN {
         if j < n && j < cnt {
             m.0.get_mut(j).unwrap().0 = out[j];
         }
         j += 1;
     }
     if cnt > n {
-        let mut last = 0;
-        let mut k = 0;
-        while k < MAXOUT {
-            if k == n {
-                last = out[k];
-            }
-            k += 1;
-        }
-        m.0.push_back(State(last));
+        m.0.push_back(State(out[n]));
     } else {
         m.0.truncate(cnt);
     }
@@ -223,7 +250,8 @@ pub(super) fn ref_lost_from(m: &mut BufMap, idx_start: usize, end: u64) {
 /// repainted them); behind I neighbours differ in colour except Lost|Lost (invariant J of C09).
 fn lost_from_eq<const N: usize, const I: usize>() {
     let size: u64 = kani::any();
-    kani::assume(size <= LIM);
+    // N == CAP: the map is full, so only streams of <= W bytes (where no boundary can be added) are covered
+    kani::assume(size <= if N < verif_model::CAP { LIM } else { W });
     let mut a = BufMap::default();
     let mut b = BufMap::default();
     let mut pre = [State(0); N];
@@ -263,14 +291,14 @@ fn lost_from_eq<const N: usize, const I: usize>() {
         }
         i += 1;
     }
-    kani::cover!(I >= N || a.0.len() == N + 1, "split at the end of the lost range");
+    kani::cover!(I >= N || N == verif_model::CAP || a.0.len() == N + 1, "split at the end of the lost range");
     kani::cover!(I + 2 > N || a.0.len() < N, "lost segments merged");
 }
 
 macro_rules! lost_from_eq_harness {
     ($name:ident, $n:literal, [$($i:literal),*]) => {
         #[kani::proof]
-        #[kani::unwind(8)]
+        #[kani::unwind(6)]
         fn $name() {
             $( lost_from_eq::<$n, $i>(); )*
         }
@@ -280,8 +308,7 @@ macro_rules! lost_from_eq_harness {
 lost_from_eq_harness!(c01_lemma_lost_from_eq_n1, 1, [0, 1]);
 lost_from_eq_harness!(c01_lemma_lost_from_eq_n2, 2, [0, 1, 2]);
 lost_from_eq_harness!(c01_lemma_lost_from_eq_n3, 3, [0, 1, 2, 3]);
-lost_from_eq_harness!(c01_lemma_lost_from_eq_n4_lo, 4, [0, 1]);
-lost_from_eq_harness!(c01_lemma_lost_from_eq_n4_hi, 4, [2, 3, 4]);
+lost_from_eq_harness!(c01_lemma_lost_from_eq_n4, 4, [0, 1, 2, 3, 4]);
 
 // ------------------------------------------------------------------------------------------------
 // The composition
@@ -364,25 +391,18 @@ impl<const P: usize> World<P> {
                 if fresh {
                     assert!(total <= flow_limit as u64, "fresh data respects the connection flow limit");
                 }
-                // the bytes handed to the packet are exactly SEQ[range] (probe position k)
-                let k: u64 = kani::any();
-                kani::assume(k < total);
+                // the bytes handed to the packet are exactly SEQ[range]: consecutive slices of the content
                 let mut pos: u64 = 0;
-                let mut hit = false;
                 let mut i = 0;
                 while i < 2 {
                     if i < chunks.len() {
                         let d = &chunks[i];
-                        let len = d.len() as u64;
-                        if k >= pos && k < pos + len {
-                            assert!(d[(k - pos) as usize] == SEQ[(range.start + k) as usize], "frame payload == the bytes written at these offsets");
-                            hit = true;
-                        }
-                        pos += len;
+                        assert!(d.len() > 0 && is_content(d, range.start + pos), "frame payload == the bytes written at these offsets, in order");
+                        pos += d.len() as u64;
                     }
                     i += 1;
                 }
-                assert!(chunks.len() <= 2 && pos == total && hit, "frame payload covers the whole range");
+                assert!(chunks.len() <= 2 && pos == total, "frame payload covers the whole range");
                 core::mem::forget(chunks);
                 let inx = self.x >= range.start && self.x < range.end;
                 if inx {
@@ -524,24 +544,18 @@ impl<const P: usize> World<P> {
         assert!(self.rcv.is_readable() == (avail > 0));
         let cap: usize = kani::any();
         kani::assume(cap <= 8);
-        let mut sink = Sink { buf: [0xff; 8], pos: 0, cap };
+        let mut sink = Sink::new(cap, 0);
         let n = self.rcv.try_read(&mut sink);
         let expect = if (cap as u64) < avail { cap as u64 } else { avail };
         assert!(n as u64 == expect && sink.pos == n, "reads min(capacity, contiguous delivered prefix)");
         assert!(self.rcv.nread() == n as u64);
-        let k: usize = kani::any();
-        kani::assume(k < 8);
-        if k < n {
-            assert!(sink.buf[k] == SEQ[k], "bytes read == bytes written, same order, nothing missing / duplicated / altered");
-        }
+        assert!(sink.in_order && sink.next == n as u64, "bytes read == bytes written, same order, nothing missing / duplicated / altered");
         assert!(self.rcv.available() == avail - n as u64, "the unread rest stays readable");
         // a second read continues where the first stopped (no byte twice)
-        let mut sink2 = Sink { buf: [0xff; 8], pos: 0, cap: 8 };
+        let mut sink2 = Sink::new(8, n as u64);
         let n2 = self.rcv.try_read(&mut sink2);
         assert!(n2 as u64 == avail - n as u64);
-        if k < n2 {
-            assert!(sink2.buf[k] == SEQ[n + k], "second read continues at the next byte");
-        }
+        assert!(sink2.in_order && sink2.next == avail, "second read continues at the next byte");
         kani::cover!(n > 0 && (n as u64) < avail, "partial read");
         kani::cover!(avail == self.written, "whole content readable");
     }
@@ -579,7 +593,7 @@ fn compose<const CHUNKS: usize, const P: usize>(d: [usize; P], f: [usize; P]) {
 macro_rules! compose_harness {
     ($name:ident, $c:literal, $p:literal, $d:expr, $f:expr) => {
         #[kani::proof]
-        #[kani::unwind(8)]
+        #[kani::unwind(6)]
         #[kani::stub(core::slice::index::slice_index_fail, stub_slice_index_fail)]
         #[kani::stub(BufMap::may_lost_from, ref_lost_from)]
         fn $name() {
@@ -592,3 +606,115 @@ compose_harness!(c01_compose_c1p1, 1, 1, [2], [1]);
 compose_harness!(c01_compose_c2p1, 2, 1, [2], [1]);
 compose_harness!(c01_compose_c1p2, 1, 2, [1, 2], [1, 2]);
 compose_harness!(c01_compose_c1p3, 1, 3, [1, 1, 2], [1, 1, 2]);
+
+// ------------------------------------------------------------------------------------------------
+// Sender half: the same world without the receiver. Whether a frame reached the peer is a free
+// boolean (so every ack / loss pattern of the full world is included); deeper schedules are
+// affordable. Guarantees to the receiver half: every emitted frame is (range inside the written
+// data, payload == SEQ[range]) — asserted in `pick`.
+
+fn send_half<const CHUNKS: usize, const P: usize>(f: [usize; P]) {
+    let mut w = World::<P>::new::<CHUNKS>();
+    let mut r = 0;
+    while r < P {
+        w.pick(r, kani::any(), kani::any());
+        let mut i = 0;
+        while i < f[r] {
+            let j: usize = kani::any();
+            kani::assume(j < P);
+            if kani::any() && w.has[j] {
+                w.copies[j] = 1;
+                if w.inx[j] {
+                    w.delivered_x = true;
+                }
+            }
+            w.feedback_slot();
+            i += 1;
+        }
+        r += 1;
+    }
+    kani::cover!(w.has[0] && w.lost[0] && w.acked[0], "ack after a (spurious) loss report");
+    kani::cover!(P < 2 || (w.has[P - 1] && w.lost[0] && w.start[P - 1] <= w.start[0] && w.end[P - 1] > w.start[0]), "a later frame retransmits bytes of the first");
+    let all = w.check_completion();
+    kani::cover!(all, "everything acknowledged");
+    w.progress_pick();
+    core::mem::forget(w);
+}
+
+macro_rules! send_harness {
+    ($name:ident, $c:literal, $p:literal, $f:expr) => {
+        #[kani::proof]
+        #[kani::unwind(6)]
+        #[kani::stub(core::slice::index::slice_index_fail, stub_slice_index_fail)]
+        #[kani::stub(BufMap::may_lost_from, ref_lost_from)]
+        fn $name() {
+            send_half::<$c, $p>($f);
+        }
+    };
+}
+
+send_harness!(c01_send_c1p1, 1, 1, [2]);
+send_harness!(c01_send_c1p2, 1, 2, [1, 2]);
+send_harness!(c01_send_c2p2, 2, 2, [1, 2]);
+send_harness!(c01_send_c1p3, 1, 3, [1, 1, 2]);
+
+// ------------------------------------------------------------------------------------------------
+// Receiver half: K arbitrary frames (range inside the written data, payload == SEQ[range]) in
+// arbitrary order with arbitrary overlaps / duplicates — a superset of whatever the sender half
+// emits under any fault schedule — delivered one after the other to a fresh RecvBuf, then the reader.
+
+fn recv_half<const K: usize>() {
+    let t: u64 = kani::any();
+    kani::assume(t >= 1 && t <= W);
+    let x: u64 = kani::any();
+    kani::assume(x < t);
+    let mut rcv = RecvBuf::default();
+    let mut delivered_x = false;
+    let mut k = 0;
+    while k < K {
+        let s: u64 = kani::any();
+        let e: u64 = kani::any();
+        kani::assume(s < e && e <= t);
+        let largest = rcv.largest_offset();
+        let fresh = rcv.recv(s, content(s, e));
+        assert!(rcv.nread() == 0);
+        assert!(rcv.largest_offset() == if e > largest { e } else { largest }, "highest offset seen");
+        assert!(fresh == rcv.largest_offset() - largest, "flow-control accounting telescopes");
+        if x >= s && x < e {
+            delivered_x = true;
+        }
+        k += 1;
+    }
+    let mut w = World::<0> {
+        snd: SendBuf::default(),
+        rcv,
+        written: t,
+        x,
+        g: G::Never,
+        delivered_x,
+        has: [],
+        start: [],
+        end: [],
+        inx: [],
+        copies: [],
+        acked: [],
+        lost: [],
+    };
+    w.reader();
+    core::mem::forget(w);
+}
+
+macro_rules! recv_harness {
+    ($name:ident, $k:literal) => {
+        #[kani::proof]
+        #[kani::unwind(6)]
+        #[kani::stub(core::slice::index::slice_index_fail, stub_slice_index_fail)]
+        fn $name() {
+            recv_half::<$k>();
+        }
+    };
+}
+
+recv_harness!(c01_recv_k1, 1);
+recv_harness!(c01_recv_k2, 2);
+recv_harness!(c01_recv_k3, 3);
